@@ -390,13 +390,21 @@ func (ab *rulesPair) equalizeGroups(ra, rb *nsxRule) []change {
 	return result
 }
 
+// Group without IP addresses is sorted first.
+func firstAddr(g *nsxGroup) string {
+	if l := g.Expression[0].IPAddresses; len(l) > 0 {
+		return l[0]
+	}
+	return ""
+}
+
 func sortRules(l []*nsxRule, m map[string]*nsxGroup) {
 	elementCmp := func(ei, ej string) int {
 		gi := getGroup(ei, m)
 		gj := getGroup(ej, m)
 		if gi != nil {
 			if gj != nil {
-				return cmp.Compare(gi.Expression[0].IPAddresses[0], gj.Expression[0].IPAddresses[0])
+				return cmp.Compare(firstAddr(gi), firstAddr(gj))
 			}
 			return -1
 		}
